@@ -290,8 +290,8 @@ pub enum Op {
     /// timers (C12): `derived` uses the DerivedActorRef variant
     SendAfter { to: u8, ms: u16, derived: bool, #[serde(default)] us: u16 },
     SendInterval { to: u8, ms: u16, derived: bool, #[serde(default)] us: u16 },
-    ExitAfter { to: u8, ms: u16, #[serde(default)] us: u16 },
-    KillAfter { to: u8, ms: u16, #[serde(default)] us: u16 },
+    ExitAfter { to: u8, ms: u16, #[serde(default)] us: u16, #[serde(default)] derived: bool },
+    KillAfter { to: u8, ms: u16, #[serde(default)] us: u16, #[serde(default)] derived: bool },
     AbortTimer(u8),
     AwaitTimer(u8),
     /// output port (C16): publish number `n`
@@ -1245,17 +1245,19 @@ pub async fn exec_op(w: &Arc<World>, c: usize, i: usize, op: &Op) -> Res {
             w.timers.lock().unwrap().push(TimerH::Unit(h));
             Res::Found(tid as i64)
         }
-        Op::ExitAfter { to, ms, us } => {
+        Op::ExitAfter { to, ms, us, derived } => {
             let cell = cell!(to);
             let tid = w.timers.lock().unwrap().len();
-            let h = cell.exit_after(Duration::from_micros(*ms as u64 * 1000 + *us as u64));
+            let dur = Duration::from_micros(*ms as u64 * 1000 + *us as u64);
+            let h = if *derived { cell.get_derived::<DMsg>().exit_after(dur) } else { cell.exit_after(dur) };
             w.timers.lock().unwrap().push(TimerH::Unit(h));
             Res::Found(tid as i64)
         }
-        Op::KillAfter { to, ms, us } => {
+        Op::KillAfter { to, ms, us, derived } => {
             let cell = cell!(to);
             let tid = w.timers.lock().unwrap().len();
-            let h = cell.kill_after(Duration::from_micros(*ms as u64 * 1000 + *us as u64));
+            let dur = Duration::from_micros(*ms as u64 * 1000 + *us as u64);
+            let h = if *derived { cell.get_derived::<DMsg>().kill_after(dur) } else { cell.kill_after(dur) };
             w.timers.lock().unwrap().push(TimerH::Unit(h));
             Res::Found(tid as i64)
         }
